@@ -230,13 +230,19 @@ impl AsyncFileSystem for AsyncMemoryFS {
     async fn create_file(&self, path: &str) -> VfsResult<Box<dyn Write + Send + Unpin>> {
         self.ensure_has_parent(path).await?;
         let content = Arc::new(Vec::<u8>::new());
-        self.handle.write().await.files.insert(
-            path.to_string(),
-            AsyncMemoryFile {
-                file_type: VfsFileType::File,
-                content,
-            },
-        );
+        {
+            let mut handle = self.handle.write().await;
+            if let Some(existing) = handle.files.get(path) {
+                ensure_file(existing)?;
+            }
+            handle.files.insert(
+                path.to_string(),
+                AsyncMemoryFile {
+                    file_type: VfsFileType::File,
+                    content,
+                },
+            );
+        }
         let writer = AsyncWritableFile {
             content: Cursor::new(vec![]),
             destination: path.to_string(),
@@ -248,6 +254,7 @@ impl AsyncFileSystem for AsyncMemoryFS {
     async fn append_file(&self, path: &str) -> VfsResult<Box<dyn Write + Send + Unpin>> {
         let handle = self.handle.write().await;
         let file = handle.files.get(path).ok_or(VfsErrorKind::FileNotFound)?;
+        ensure_file(file)?;
         let mut content = Cursor::new(file.content.as_ref().clone());
         content.seek(SeekFrom::End(0)).await?;
         let writer = AsyncWritableFile {
